@@ -71,10 +71,15 @@ type c07Scenario struct {
 	kind         string // to | from | auto | operator-failover
 	gtid         string // equal | tail | catch-up
 	wait         int
+	// async: semi_sync off; only commits acknowledged by a host that never crashes must survive.
+	// windowLag: when the manager dies, every other server's download becomes slow, and clients
+	// write to whatever is writable before the successor acts.
+	async     bool
+	windowLag bool
 }
 
 func (sc c07Scenario) String() string {
-	return fmt.Sprintf("%dHA cascade=%v %s gtid=%s w=%d old-master-stays-down=%v", sc.n, sc.cascade, sc.kind, sc.gtid, sc.wait, sc.oldStaysDown)
+	return fmt.Sprintf("%dHA cascade=%v %s gtid=%s w=%d old-master-stays-down=%v async=%v window-lag=%v", sc.n, sc.cascade, sc.kind, sc.gtid, sc.wait, sc.oldStaysDown, sc.async, sc.windowLag)
 }
 
 var c07Kinds = []string{"to", "from", "auto", "operator-failover"}
@@ -92,7 +97,7 @@ func c07Run(c *vs.Case, t *testing.T, sc c07Scenario, k int, mode, successor str
 	c07Inside = false
 	ha := []string{"h1", "h2", "h3", "h4"}[:sc.n]
 	o := simOpts{HA: ha, LogLevel: simLogLevel(), Cfg: map[string]string{
-		"rpl_semi_sync_master_wait_for_slave_count": fmt.Sprint(sc.wait), "failover": "true", "failover_delay": "0s", "inactivation_delay": "5s"}}
+		"rpl_semi_sync_master_wait_for_slave_count": fmt.Sprint(sc.wait), "failover": "true", "failover_delay": "0s", "inactivation_delay": "5s", "semi_sync": fmt.Sprint(!sc.async)}}
 	if sc.cascade {
 		o.Cascade = map[string]string{"c1": ha[sc.n-1]}
 	}
@@ -219,11 +224,39 @@ func c07Run(c *vs.Case, t *testing.T, sc c07Scenario, k int, mode, successor str
 			}
 		}
 	}
+	if sc.async {
+		// without semi-sync a commit acknowledged by a server that crashes may be lost by design
+		s.excuseWritesOn = map[string]bool{}
+		if sc.kind == "auto" {
+			s.excuseWritesOn[master] = true
+		}
+	}
+	if sc.windowLag && cc.fired {
+		s.w.Lock()
+		for _, hn := range s.hostNames() {
+			s.w.Hosts[hn].DownloadRate = 1
+		}
+		s.w.Unlock()
+		for _, hn := range s.hostNames() {
+			s.w.ClientWrite(hn, 200)
+		}
+		s.advance(time.Second)
+	}
 	if sc.kind == "auto" && !sc.oldStaysDown {
 		s.startMySQL(master, true)
 	}
 	for i := 0; i < 2; i++ {
 		s.w.ClientWrite(s.hostNames()[i%len(s.hostNames())], 200)
+	}
+	if sc.windowLag {
+		// downloads recover a little later than the successor starts
+		s.round(true)
+		s.round(true)
+		s.w.Lock()
+		for _, hn := range s.hostNames() {
+			s.w.Hosts[hn].DownloadRate = 0
+		}
+		s.w.Unlock()
 	}
 	s.quiesce(true, 120)
 	if u := s.unknownStatements(); len(u) > 0 {
@@ -267,11 +300,12 @@ func callAt(list []string, k int) string {
 // cluster ends in the canonical state.
 func TestVerifC07(t *testing.T) {
 	st := vs.NewStats(t, "C07")
-	st.Rule = "scenario = 2-4 HA hosts (+-cascade) x request kind {to, from, automatic after master crash, operator failover} x GTID situation {equal, received-unapplied tail, catch-up needed} x wait count 1-2, converged from a cold start by the real daemons with a client workload; the manager is killed (SIGKILL model) or loses ZooKeeper at its k-th external call (SQL statement or ZooKeeper write; a ZooKeeper call is cut before or after taking effect), k drawn from [1,170]; successor = the same host restarted at once, or another host with the restart 6 rounds later; oracle = request no longer pending + C02 end state after quiescence; non-trivial = the crash point fell inside the procedure"
+	st.Rule = "scenario = 2-4 HA hosts (+-cascade) x request kind {to, from, automatic after master crash, operator failover} x GTID situation {equal, received-unapplied tail, catch-up needed} x wait count 1-2 x {semi-sync, asynchronous (then only commits acknowledged by a server that never crashes must survive)} x {clients write to whatever is writable between the interruption and the successor's first iteration while downloads are slow, or not}, converged from a cold start by the real daemons with a client workload; the manager is killed (SIGKILL model) or loses ZooKeeper at its k-th external call (SQL statement or ZooKeeper write; a ZooKeeper call is cut before or after taking effect), k drawn from [1,170]; successor = the same host restarted at once, or another host with the restart 6 rounds later; oracle = request no longer pending + C02 end state after quiescence; non-trivial = the crash point fell inside the procedure"
 	st.Assumptions = simAssumptions
 	st.Check(t, vs.CheckOpts{Bubble: true}, func(c *vs.Case) {
 		sc := c07Scenario{n: c.Src.Int("ha_hosts", 2, 4), cascade: c.Src.Int("cascade", 0, 3) == 0, kind: c.Src.Pick("request", c07Kinds...),
-			gtid: c.Src.Pick("gtid", c07Gtids...), wait: c.Src.Int("wait_count", 1, 2), oldStaysDown: c.Src.Bool("old_master_stays_down")}
+			gtid: c.Src.Pick("gtid", c07Gtids...), wait: c.Src.Int("wait_count", 1, 2), oldStaysDown: c.Src.Bool("old_master_stays_down"),
+			async: c.Src.Int("async", 0, 3) == 0, windowLag: c.Src.Int("lag_and_writes_in_the_window", 0, 2) == 0}
 		k := c.Src.Int("crash_at_call", 1, 170)
 		mode := c.Src.Pick("mode", "kill", "kill", "zk-loss")
 		succ := c.Src.Pick("successor", "same-host-now", "other-host")
@@ -301,17 +335,19 @@ func TestVerifC07Enumerate(t *testing.T) {
 		}
 	}
 	grid = append(grid, c07Scenario{n: 4, cascade: true, kind: "from", gtid: "catch-up", wait: 2}, c07Scenario{n: 3, cascade: true, kind: "auto", gtid: "tail", wait: 1},
-		c07Scenario{n: 3, kind: "auto", gtid: "equal", wait: 1, oldStaysDown: true}, c07Scenario{n: 4, kind: "auto", gtid: "tail", wait: 1, oldStaysDown: true})
+		c07Scenario{n: 3, kind: "auto", gtid: "equal", wait: 1, oldStaysDown: true}, c07Scenario{n: 4, kind: "auto", gtid: "tail", wait: 1, oldStaysDown: true},
+		c07Scenario{n: 3, kind: "auto", gtid: "equal", wait: 1, async: true, windowLag: true}, c07Scenario{n: 3, kind: "to", gtid: "equal", wait: 1, async: true, windowLag: true})
 	if vs.Tier() != "thorough" {
 		// the quick tier enumerates every call boundary of the two most important scenarios
-		grid = []c07Scenario{{n: 3, kind: "auto", gtid: "equal", wait: 1, oldStaysDown: true}, {n: 3, kind: "to", gtid: "tail", wait: 1}}
+		grid = []c07Scenario{{n: 3, kind: "auto", gtid: "equal", wait: 1, oldStaysDown: true}, {n: 3, kind: "to", gtid: "tail", wait: 1},
+			{n: 3, kind: "auto", gtid: "equal", wait: 1, async: true, windowLag: true}}
 	}
 	maxK := 150
 	if v := vs.Cases(0); v > 0 && v < maxK {
 		maxK = v // VERIF_CASES bounds k in development runs
 	}
 	st.Exhaustive = true
-	st.Rule = fmt.Sprintf("fault enumeration: for each of %d scenarios (thorough: 2-3 HA hosts x 4 request kinds x {equal, tail} + 2 cascade shapes; quick: automatic failover and switch --to in a 3-node cluster) the manager is killed at EVERY external call k in [1,%d] of the procedure (k beyond the procedure's K calls means no crash and is counted trivial) x successor {same host restarted at once, other host with restart 6 rounds later}; oracle: request no longer pending + C02 end state after quiescence; each (scenario,k,successor) cell is visited exactly once", len(grid), maxK)
+	st.Rule = fmt.Sprintf("fault enumeration: for each of %d scenarios (thorough: 2-3 HA hosts x 4 request kinds x {equal, tail} + 2 cascade shapes + old-master-stays-down + asynchronous with writes in the window; quick: automatic failover and switch --to in a 3-node cluster, and an asynchronous automatic failover with client writes in the window between the interruption and the successor) the manager is killed at EVERY external call k in [1,%d] of the procedure (k beyond the procedure's K calls means no crash and is counted trivial) x successor {same host restarted at once, other host with restart 6 rounds later}; oracle: request no longer pending + C02 end state after quiescence; each (scenario,k,successor) cell is visited exactly once", len(grid), maxK)
 	var cells [][]vs.Draw
 	for si := range grid {
 		for k := 1; k <= maxK; k++ {
